@@ -70,6 +70,22 @@ Section Dispatch.
   (* what Context.Params() yields (context.go:204-221) *)
   Definition ctx_params (c : ctx) : list param := if c_tsr c then c_tsrParams c else c_params c.
 
+  (* Context.CloneWith (context.go:376-392): a context taken from the pool, whatever it held ([pooled]),
+     receives route, scope, tsr and a copy of the VISIBLE parameter slice (copyWithResize truncates the
+     destination to the source's length); the other slice keeps the pooled content.  Context.Clone
+     (context.go:336-372) builds a fresh context the same way (the other slice is nil). *)
+  Definition clone_with (c pooled : ctx) : ctx :=
+    {| c_route := c_route c; c_tsr := c_tsr c;
+       c_params := if c_tsr c then c_params pooled else c_params c;
+       c_tsrParams := if c_tsr c then c_tsrParams c else c_tsrParams pooled;
+       c_scope := c_scope c |}.
+
+  Definition clone (c : ctx) : ctx :=
+    {| c_route := c_route c; c_tsr := c_tsr c;
+       c_params := if c_tsr c then [] else c_params c;
+       c_tsrParams := if c_tsr c then c_tsrParams c else [];
+       c_scope := c_scope c |}.
+
   Inductive handler := HRoute (r : R) | HRedirect | HOptions | HNoMethod | HNoRoute.
 
   Record outcome := {
